@@ -16,6 +16,10 @@ func scalarZoo() []TV {
 		out = append(out, tvInt("int64", v), fitInt("int32", v), fitInt("uint8", v), fitInt("uint64", v))
 	}
 	out = append(out, tvUint("uint64", 1<<63), tvUint("uint64", ^uint64(0)), tvUint("uint", 1<<63+5))
+	out = append(out, tvSlice("[]uint64", tvUint("uint64", 1<<63), tvUint("uint64", ^uint64(0))), tvSlice("[]uint", tvUint("uint", 1<<63+5)),
+		tvList(tvUint("uint64", ^uint64(0)), tvInt("int64", -1)), tvSlice("[]int64", tvInt("int64", -1<<63), tvInt("int64", 1<<63-1)),
+		tvSlice("[]int8", tvInt("int8", -128), tvInt("int8", 127)), tvSlice("[]uint8", tvUint("uint8", 255), tvUint("uint8", 0)),
+		tvSlice("[]int16", tvInt("int16", -32768)), tvSlice("[]uint16", tvUint("uint16", 65535)), tvSlice("[]int32", tvInt("int32", -1<<31)), tvSlice("[]uint32", tvUint("uint32", 1<<32-1)))
 	for _, f := range []float64{0, 1, -1, 3.7, -3.7, 0.5, -0.5, 1e15, -1e15, 123456789.75, 9.007199254740993e15, 4.611686018427388e18, -4.611686018427388e18} {
 		out = append(out, tvFloat("float64", f))
 	}
